@@ -11,7 +11,7 @@ import itertools
 import json
 import os
 
-from . import env, impl, tlc, wire, writer
+from . import env, impl, terms, tlc, wire, writer
 from .writer import cfg_text
 
 env.import_pyjelly()
@@ -30,12 +30,12 @@ def canon(x) -> str:
     return json.dumps(x, sort_keys=True, separators=(",", ":"))
 
 
-def make_stream(c: dict):
+def make_stream(c: dict, integ: str = "generic"):
     from pyjelly.serialize.lookup import LookupEncoder  # noqa: PLC0415
 
     ptype = c["PType"]
     mn = max(c["MaxN"], 8)
-    cfg = impl.default_cfg(integ="generic", sclass={1: "triple", 2: "quad", 3: "graph"}[ptype], ltype=(1 if ptype == 1 else 2), delimited=True,
+    cfg = impl.default_cfg(integ=integ, sclass={1: "triple", 2: "quad", 3: "graph"}[ptype], ltype=(1 if ptype == 1 else 2), delimited=True,
                            frame_size=(c["FrameSize"] or 10**6), preset=(mn, c["MaxP"], c["MaxD"]), gen=True, star=True, nsdecl=bool(c.get("NsDecl")))
     stream = impl.make_stream(cfg)
     if c["MaxN"] < 8:                       # model-only name table sizes: the real encoder takes any size, only LookupPreset refuses < 8
@@ -56,6 +56,18 @@ def key_of(stream, c, back):
             "rep": rep, "gcur": ["none"], "buf": (len(stream.flow) if c["FrameSize"] else 0)}
 
 
+PARENT: dict = {}      # state key -> (parent key, call) of the last walk: shortest history of calls reaching a state
+
+
+def history_to(key) -> list:
+    """The calls (shortest sequence) that bring a fresh stream into the state with that projection."""
+    path, ck = [], canon(key)
+    while ck in PARENT:
+        ck, ops = PARENT[ck]
+        path.append(ops)
+    return path[::-1]
+
+
 def calls_of(c: dict, pools: dict, body_max: int):
     """The public calls of the slice, each as the list of model ops it stands for."""
     ptype = c["PType"]
@@ -74,7 +86,7 @@ def calls_of(c: dict, pools: dict, body_max: int):
     return calls
 
 
-def walk(c: dict, pools: dict, max_transitions=10**7, body_max=2):
+def walk(c: dict, pools: dict, max_transitions=10**7, body_max=2, integ="generic"):
     """BFS on real Stream objects, one edge per public call. Returns (idle state keys, transitions [{id, from, ops, rows, to}])."""
     ptype = c["PType"]
     calls = calls_of(c, pools, body_max)
@@ -86,13 +98,14 @@ def walk(c: dict, pools: dict, max_transitions=10**7, body_max=2):
     def obj(t):
         k = json.dumps(t)
         if k not in objs:
-            o = writer.to_impl_term(writer.abs_term(t, sub), "generic")
+            o = writer.to_impl_term(writer.abs_term(t, sub), integ)
             objs[k] = o
             back[id(o)] = t
         return objs[k]
 
-    root = make_stream(c)
+    root = make_stream(c, integ)
     seen = {canon(key_of(root, c, back)): root}
+    PARENT.clear()
     queue = [root]
     trans = []
     while queue and len(trans) < max_transitions:
@@ -134,6 +147,7 @@ def walk(c: dict, pools: dict, max_transitions=10**7, body_max=2):
                     ck = canon(k2)
                     if ck not in seen:
                         seen[ck] = s2
+                        PARENT[ck] = (canon(k0), ops)
                         nxt.append(s2)
         queue = nxt
     return set(seen), trans
@@ -149,8 +163,8 @@ def judge_transitions(c: dict, trans, chunk=6000, timeout=900):
     def one(ch):
         path = os.path.join(env.workdir(), f"wg-{os.getpid()}-{ch[0]['id']}.json")
         with open(path, "w") as f:
-            json.dump([{"id": t["id"], "from": t["from"], "ops": t["ops"]} for t in ch], f)
-        cfg = cfg_text(cc, ("Report",)).replace("SPECIFICATION Spec", "INIT TInit\nNEXT TNext")
+            json.dump([{"id": t["id"], "from": t["from"], "ops": t["ops"], "to": t["to"], "rows": [terms.jrow(r) for r in t["rows"]]} for t in ch], f)
+        cfg = cfg_text(cc, ("Report", "ReportInd")).replace("SPECIFICATION Spec", "INIT TInit\nNEXT TNext")
         r = tlc.run("MCTraceWriter", cfg, workers=2, timeout=timeout, env_extra={"TRACE_FILE": path},
                     module_text=open(os.path.join(env.SPEC, "MCWriter.tla")).read().replace("MODULE MCWriter", "MODULE MCTraceWriter").replace("EXTENDS PyWriter", "EXTENDS TraceWriter"))
         os.unlink(path)
@@ -166,5 +180,76 @@ def judge_transitions(c: dict, trans, chunk=6000, timeout=900):
             stats["transitions"] += r.generated
             for p in r.printed("STEP"):
                 d = json.loads(p)
-                out[d["id"]] = d
+                out.setdefault(d["id"], {}).update(d)
+            for p in r.printed("IND"):
+                d = json.loads(p)
+                out.setdefault(d["id"], {})["ind"] = d["ind"]
     return out, stats
+
+
+def compare_slice(run, name: str, base: dict, body_max, *, integ="generic", model_cache=None):
+    """Walk one slice on real Streams (term encoder of `integ`), have TLC judge every real call twice -- the Tier-1 inductive step on the
+    real rows, and the comparison with PyWriter -- and report: Tier-1 failures as violations of run's property (with the history of calls
+    that reaches the state), everything else as model drift.  Returns (stats dict, tlc stats) or (None, None) when the projection is unusable."""
+    c = dict(base, CheckFits=False, AllowReject=True)   # the code's own (elision-aware) refusal; a refused call leaves a failed stream
+    if model_cache is not None and name in model_cache:
+        idle, pools = model_cache[name]
+    else:
+        idle, pools, _gr = model_idle_states(c)
+        idle = {k for k in idle if '"gcur":["none"]' in k}   # a public call starts and ends with every graph closed
+        if model_cache is not None:
+            model_cache[name] = (idle, pools)
+    try:
+        real_idle, trans = walk(c, pools, body_max=body_max or 0, integ=integ)
+    except AttributeError as ex:       # the projection reads encoder internals; renamed internals degrade this comparison only
+        run.model_drift(f"state projection of Stream/TermEncoder unavailable ({ex}): state-graph comparison of {name} skipped")
+        return None, None
+    judged, gst = judge_transitions(c, trans)
+    mism = refused = ind_bad = 0
+    tag = f"slice {name}" + ("" if integ == "generic" else f" ({integ} term encoder)")
+    for tr in trans:
+        o = judged.get(tr["id"]) or {}
+        refused += "failed" in tr["to"]
+        ind = o.get("ind")
+        if ind is None:
+            env.machinery_failure(f"writer graph: TLC gave no inductive-step verdict for a real call ({name}, {tr['ops']})")
+        if ind != "ok":
+            ind_bad += 1
+            if ind.startswith("Mirror"):
+                if ind_bad <= 3:
+                    run.model_drift(f"{tag}: after {tr['ops']} the Tier-1 reader does not mirror the real successor state ({ind}): the induction does not go through")
+            else:
+                hist = history_to(tr["from"])
+                run.violation({"clause": "inductive-step:" + ind.split(":")[0], "detail": ind, "binding": "writer-state-graph", "slice": name, "integ": integ},
+                              f"from the state reached by {len(hist)} call(s), the rows written by {tr['ops']} are judged {ind} by the Tier-1 reader",
+                              {"consts": c, "integ": integ, "history": hist, "call": tr["ops"], "rows": tr["rows"], "state": tr["from"], "successor": tr["to"]})
+        if "rows" not in o:
+            mism += 1
+            if mism <= 2:
+                run.model_drift(f"{tag}: real call {tr['ops']} from a reachable state is not a behaviour of PyWriter")
+            continue
+        if o["bad"]:
+            env.machinery_failure(f"writer graph: PyWriter's own composite clause {o['bad']} fails on a call re-executed from a real state ({name})")
+        mrows = [x for op_rows in o["rows"] for x in op_rows]
+        if canon([writer.norm_row(x) for x in mrows]) != canon([writer.norm_row(x) for x in tr["rows"]]) or canon(o["to"]) != canon(tr["to"]):
+            mism += 1
+            if mism <= 2:
+                run.model_drift(f"{tag}: call {tr['ops']}: rows or successor state differ between PyWriter and the real Stream "
+                                f"(model -> {str(o['to'])[:80]}, real -> {str(tr['to'])[:80]})")
+    same = (real_idle <= idle) if body_max is not None else (idle == real_idle)
+    if not same:
+        run.model_drift(f"{tag}: real Streams reach {len(real_idle)} idle states, PyWriter {len(idle)}")
+    return ({"model_idle_states": len(idle), "real_idle_states": len(real_idle), "same_state_set": idle == real_idle, "real_calls": len(trans),
+             "of_which_refused": refused, "calls_equal_to_model": len(trans) - mism, "inductive_step_ok": len(trans) - ind_bad}, gst)
+
+
+RDF11 = ("flow2", "nameq", "ns", "flow3g", "pfx", "flow1", "flow1q", "wg-c18p", "wg-c18pq", "wg-c18g")   # slices rdflib can carry
+
+
+def slice_consts(name: str) -> dict:
+    from . import universes as U  # noqa: PLC0415
+
+    for d in (U.THOROUGH_SLICES, U.WG, U.C20):
+        if name in d:
+            return d[name]
+    raise KeyError(name)
